@@ -30,7 +30,7 @@ fn weights() -> OpWeights {
 		async_toggle: 14,
 		complete: 22,
 		pump: 8,
-		force_close: 0,
+		force_close: 1,
 		tamper_revoke: 0,
 		..OpWeights::zero()
 	}
@@ -53,10 +53,35 @@ fn oracle_inner(c: &Case, ctx: &mut Ctx, sim: &mut netsim::sim::Sim) -> CaseResu
 	let mut co = CommitOracle::new(sim);
 	let mut po = PersistOracle::new(sim);
 	let mut tags: Vec<&'static str> = vec![];
+	let mut bcur = sim.log.len();
+	let mut closed_by_user: Vec<(usize, usize)> = vec![];
 	for op in c.ops.iter() {
 		let tag = apply(sim, &c.spec, op);
 		tags.push(tag);
+		if tag == "force-close" {
+			co.allow_force_close = true;
+			if let Op::ForceClose { chan, by_funder } = op {
+				let ci = pick(*chan, sim.chans.len());
+				closed_by_user.push((ci, if *by_funder { sim.chans[ci].a } else { sim.chans[ci].b }));
+			}
+		}
 		po.step(sim)?;
+		// commitment broadcasts: the transaction must not leave before the update storing it is durable
+		let new_log: Vec<(u64, netsim::sim::SEvent)> = sim.log[bcur..].to_vec();
+		bcur = sim.log.len();
+		for (_, e) in new_log {
+			if let netsim::sim::SEvent::Broadcast { node, tx, .. } = e {
+				for (ci, ch) in sim.chans.iter().enumerate() {
+					if (ch.a == node || ch.b == node) && tx.input.len() == 1 && tx.input[0].previous_output.txid == ch.funding_tx.compute_txid() && (tx.input[0].sequence.0 >> 24) == 0x80 {
+						// which of this node's commitments is it? (signed by the peer)
+						let number = co.signed_commitment_number(&tx.compute_txid()).map(|(_, _, n)| n);
+						let user = closed_by_user.contains(&(ci, node));
+						po.check_commitment_broadcast(node, &ch.id, number, user)?;
+						ctx.label("commitment-broadcast-checked");
+					}
+				}
+			}
+		}
 		if let Err(f) = co.step(sim) {
 			// commitment content / protocol errors are C01's verdict; stop this case
 			ctx.label(&format!("foreign-failure:C01:{}", f.oracle));
